@@ -18,16 +18,13 @@ func (s *Store) snapshotPrevious(ss Snapshot) (Snapshot, error) {
 		return nil, fmt.Errorf("snapshot not a footer")
 	}
 
-	slocs, _ := footer.segmentLocs()
+	footer.segmentLocs()
 	defer footer.DecRef()
 
-	if len(slocs) <= 0 {
-		return nil, nil
-	}
-
-	mref := slocs[0].mref
+	// The segments might all belong to child collections.
+	mref := footer.mmapRefAny()
 	if mref == nil {
-		return nil, fmt.Errorf("footer mref nil")
+		return nil, nil
 	}
 
 	mref.m.Lock()
